@@ -590,6 +590,19 @@ def run(tier, seed):
         e2e_general.stage(chk, PROP, tier, seed)
     except RuntimeError as ex:
         chk.violation("broken-obligation", "e2e-build", dict(error=str(ex)[-3000:]), no_input=True)
+    # whole-life stage (Model/UnitLife.v): the retry delay counted in unstopped time when SIGTSTP / SIGCONT land
+    # in it; cancellation reaching a unit in its delay, or consumed by an attempt that then fails with retries left
+    try:
+        import e2e, units_e2e as U
+        ok_tbl, _msg = U.regen_table()
+        if not ok_tbl:
+            chk.violation("broken-obligation", "pause-table-translator", dict(error=_msg), no_input=True)
+        else:
+            gate = U.merge_gates(gate, U.life_gate(chk))
+            U.life_stage(chk, e2e.Rig(), [U.life_cancel, lambda r: U.life_stop_in_delay(None)[:4]], "c07l",
+                         vlib.rng_for(seed, PROP + ":life"), thorough)
+    except RuntimeError as ex:
+        chk.violation("broken-obligation", "e2e-build", dict(error=str(ex)[-3000:]), no_input=True)
     return chk.finish(
         gate, "make -C coq Properties/C07.vo && coqc gen/assump_C07.v (Print Assumptions)",
         ["Coq 8.16.1 kernel + vm_compute",
